@@ -3,7 +3,13 @@ package main
 // splitmix64: the single PRNG every generator draws from.
 type Rng struct{ s uint64 }
 
-func NewRng(seed uint64) *Rng { return &Rng{s: seed*0x9E3779B97F4A7C15 + 0x1234567} }
+// The state is a mixed image of the seed: with state = seed*G + c, seeds k and k+1 produced the same stream
+// shifted by one draw.
+func NewRng(seed uint64) *Rng {
+	r := &Rng{s: seed ^ 0x5851F42D4C957F2D}
+	r.s = r.U64() ^ (seed << 32)
+	return r
+}
 
 func (r *Rng) U64() uint64 {
 	r.s += 0x9E3779B97F4A7C15
